@@ -241,7 +241,7 @@ class Ctx:
             os.makedirs(d, exist_ok=True)
             p = os.path.join(d, h + ".json")
             with open(p, "w") as f:
-                json.dump({"property": self.prop, "case": case,
+                json.dump({"property": self.prop, "tier": self.tier, "seed": self.seed, "case": case,
                            "replay_cmd": "./check %s --replay %s" % (self.prop, p)}, f,
                           indent=1, default=str, ensure_ascii=True)
             replay_paths.append(p)
